@@ -23,7 +23,7 @@ def gen_expr(rng, syms, depth, allow_div=True):
     a = gen_expr(rng, syms, depth - 1)
     b = gen_expr(rng, syms, depth - 1)
     if o == "f":
-        return E.fun(rng.choice(FUNCS), a) if rng.random() < 0.7 else E.fun(rng.choice(FUNCS), a, b)
+        return E.fun("f", a) if rng.random() < 0.7 else E.fun("g", a, b)   # f is unary, g binary, everywhere
     if o == "div":
         return E.op("div", a, E.num(rng.choice([2, 3, 4]))) if allow_div else E.op("add", a, b)
     if o == "pow":
